@@ -64,7 +64,7 @@ func (rt *Transfer) touchUpDirs(fileList []*File) error {
 		if rt.Opts.DryRun {
 			continue
 		}
-		if mode&syscall.S_IWUSR > 0 {
+		if mode&syscall.S_IWUSR > 0 && !rt.Opts.PreserveTimes {
 			continue // directory is writeable, no touchup needed
 		}
 		if err := rt.setPerms(f, mode); err != nil {
